@@ -55,10 +55,22 @@ def reference(nums, dens):
 def program(n, d, lits=None):
     """factors come from application arguments, except the positions in `lits` (position in the combined
     numerator+denominator list -> Python int), which are literal Int constants"""
-    lits = lits or {}
+    lits = dict(lits or {})
+    grown = lits.pop(-1, None)
     fac = [pt.Int(lits[i]) if i in lits else pt.Btoi(pt.Txn.application_args[i]) for i in range(n + d)]
     nums, dens = fac[:n], fac[n:]
-    return pt.Seq(pt.App.globalPut(pt.Bytes("r"), pt.WideRatio(nums, dens)), pt.Int(1))
+    if grown == 1:
+        # built with as few numerator factors as the constructor accepts, the others appended afterwards
+        k = 1 if d >= 2 else 2
+        ratio = pt.WideRatio(nums[:k], dens)
+        ratio.numeratorFactors.extend(nums[k:])
+    elif grown == 2:
+        k = 1 if n >= 2 else 2
+        ratio = pt.WideRatio(nums, dens[:k])
+        ratio.denominatorFactors.extend(dens[k:])
+    else:
+        ratio = pt.WideRatio(nums, dens)
+    return pt.Seq(pt.App.globalPut(pt.Bytes("r"), ratio), pt.Int(1))
 
 
 def near_overflow(n, d):
@@ -186,6 +198,14 @@ def run(tier):
                     for l1, l2 in ((0, 1), (1, 0), (1, 1), (0, 0)):
                         items.append((n, d, versions[:2], {p1: l1, p2: l2}))
                         nlit += 1
+    # the same shapes built INCREMENTALLY: constructed from the first numerator and first denominator, the other
+    # factors appended to the object's public factor lists afterwards (key -1 of the literal map marks the mode)
+    for n in range(1, 6):
+        for d in range(1, 6):
+            if (n, d) != (1, 1) and n + d <= (6 if tier == "quick" else 8):
+                items.append((n, d, versions[1:3], {-1: 1}))
+                items.append((n, d, versions[1:3], {-1: 2}))
+                nlit += 2
     rep.bounds["literal_factor_programs"] = nlit
     rep.bounds["shapes"] = len(items) - nlit
     rep.bounds["versions"] = list(versions)
